@@ -45,9 +45,12 @@ def oracle(mx, cands, scores, stored, best_score, results):
 _MODEL = {}
 
 
-def base_model():
-    """One small fitted regression model with a split (shared by all scripted cases of a worker)."""
-    if 'm' not in _MODEL:
+def base_model(init=None):
+    """One small fitted regression model with a split per configured temperature (shared by the scripted cases of a worker):
+    the initial temperature of a scripted case is the one the estimator was CONSTRUCTED with, so that everything the constructor
+    derives from it is in place."""
+    key = ('m', init)
+    if key not in _MODEL:
         import torch
         from xrfm import xRFM
         g = torch.Generator().manual_seed(11)
@@ -58,16 +61,16 @@ def base_model():
         m = xRFM(rfm_params={'model': {'kernel': 'l2', 'bandwidth': 5.0, 'exponent': 1.0, 'diag': False, 'bandwidth_mode': 'constant'},
                              'fit': {'reg': 1e-3, 'iters': 0, 'verbose': False, 'early_stop_rfm': False}},
                  max_leaf_size=30, device='cpu', verbose=False, random_state=0, split_method='random',
-                 use_temperature_tuning=False, tuning_metric='mse')
+                 use_temperature_tuning=False, tuning_metric='mse', split_temperature=init)
         m.fit(X, y, Xv, yv)
         assert m.trees[0]['type'] != 'leaf'
-        _MODEL['m'] = (m, Xv, yv)
-    return _MODEL['m']
+        _MODEL[key] = (m, Xv, yv)
+    return _MODEL[key]
 
 
 def run_scripted(p):
     import xrfm.xrfm as xmod
-    m, Xv, yv = base_model()
+    m, Xv, yv = base_model(p['init'])
     scores = list(p['scores'])
     calls = {'i': 0}
 
